@@ -180,6 +180,14 @@ def run (s : State α) : List (Op α) → Except Err (State α)
     | .error e => .error e
     | .ok s' => run s' os
 
+/-- `fill_tree_with_colliders(tm, …)`: `add_collider(obj.frame, _make_collider(obj))` for every
+URDF collision object (the colliders `_make_collider` builds are a parameter), then
+`update_collider_poses()`.  (Filling `self_collision_whitelists_` does not touch this state;
+the whitelists are a parameter of `detect`.) -/
+def fillTreeWithColliders (s : State α) (objs : List (Frame × Collider α))
+    (getT : Frame → Pose α) : Except Err (State α) :=
+  run s (objs.map (fun p => Op.add p.1 p.2) ++ [Op.update getT])
+
 /-! ### `self_collision.py` -/
 
 /-- `bvh.self_collision_whitelists_` (`none` = key missing → `KeyError`) -/
